@@ -5,6 +5,7 @@ from sklearn.base import BaseEstimator, RegressorMixin, ClassifierMixin, clone
 from sklearn.tree import DecisionTreeRegressor, DecisionTreeClassifier
 from sklearn.linear_model import LinearRegression, LogisticRegression
 from sklearn.preprocessing import KBinsDiscretizer
+from sklearn.utils import check_random_state
 from sklearn.utils._joblib import Parallel, delayed
 
 try:
@@ -27,8 +28,7 @@ def _fit_piecewise_estimator(
     if nb_classes is not None and len(set(yi)) != nb_classes:
         # Issues a classifiers requires to have at least one example
         # of each class.
-        if random_state is None:
-            random_state = numpy.random.RandomState()
+        random_state = check_random_state(random_state)
         addition = numpy.arange(len(ind))
         random_state.shuffle(addition)
         found = set(yi)
@@ -250,16 +250,26 @@ class PiecewiseEstimator(BaseEstimator):
             else len(set(self.mean_estimator_.classes_))
         )
 
-        if hasattr(self, "random_state") and self.random_state is not None:
-            rnd = numpy.random.RandomState(self.random_state)
+        # one seed per bucket, drawn before the tasks are dispatched, so that
+        # the result does not depend on the order in which threads run
+        if nb_classes is None:
+            seeds = [None for _ in estimators]
         else:
-            rnd = None
+            rnd = check_random_state(getattr(self, "random_state", None))
+            seeds = rnd.randint(numpy.iinfo(numpy.int32).max, size=len(estimators))
 
         self.estimators_ = Parallel(
             n_jobs=self.n_jobs, verbose=verbose, prefer="threads"
         )(
             delayed(_fit_piecewise_estimator)(
-                i, estimators[i], X, y, sample_weight, association, nb_classes, rnd
+                i,
+                estimators[i],
+                X,
+                y,
+                sample_weight,
+                association,
+                nb_classes,
+                seeds[i],
             )
             for i in loop
         )
